@@ -668,3 +668,186 @@ mod __verif_kani_search_leap {
         kani::cover!(rec.n == 2);
     }
 }
+
+// ==== C05 / C06, DST-rule branch of the search (thorough tier): rule-only zone, the six yearly instants symbolic ====
+#[cfg(kani)]
+mod __verif_kani_search_rule {
+    use super::*;
+    use crate::timezone::{AlternateTime, Julian0WithLeap, LocalTimeType, RuleDay, TransitionRule};
+    use core::sync::atomic::{AtomicI64, Ordering};
+
+    const CAP: usize = 5;
+
+    struct Recorder {
+        n: usize,
+        kinds: [Option<FoundDateTimeKind>; CAP],
+    }
+
+    impl DateTimeList for Recorder {
+        fn push(&mut self, found_date_time: FoundDateTimeKind) {
+            if self.n < CAP {
+                self.kinds[self.n] = Some(found_date_time);
+            }
+            self.n += 1;
+        }
+    }
+
+    // the harness publishes the searched year and the six instants S(y-1), E(y-1), S(y), E(y), S(y+1), E(y+1) here;
+    // the stand-in for RuleDay::unix_time (proved by Verus to be day number * 86400 + time) reads them back
+    static YEAR: AtomicI64 = AtomicI64::new(0);
+    static INSTANTS: [AtomicI64; 6] = [AtomicI64::new(0), AtomicI64::new(0), AtomicI64::new(0), AtomicI64::new(0), AtomicI64::new(0), AtomicI64::new(0)];
+
+    fn stub_rule_day_unix_time(day: &RuleDay, year: i32, _day_time_in_utc: i64) -> i64 {
+        let is_end = matches!(day, RuleDay::Julian0WithLeap(j) if j.get() == 1);
+        let k = year as i64 - YEAR.load(Ordering::Relaxed); // -1, 0, +1
+        let idx = ((k + 1) * 2 + if is_end { 1 } else { 0 }) as usize;
+        INSTANTS[idx].load(Ordering::Relaxed)
+    }
+
+    fn stub_unix_time(year: i32, month: u8, month_day: u8, hour: u8, minute: u8, second: u8) -> i64 {
+        ((year as i64) << 26) | ((month as i64) << 22) | ((month_day as i64) << 17) | ((hour as i64) << 12) | ((minute as i64) << 6) | (second as i64)
+    }
+
+    fn stub_from_timespec_and_local(unix_time: i64, nanoseconds: u32, local_time_type: LocalTimeType) -> Result<DateTime, TzError> {
+        match unix_time.checked_add(local_time_type.ut_offset() as i64) {
+            Some(v) if -67768100567971200 <= v && v <= 67767976233532799 => {
+                Ok(DateTime::from_timespec_and_local_unchecked_for_verif(unix_time, nanoseconds, (0, 1, 1, 0, 0, 0), local_time_type))
+            }
+            _ => Err(TzError::OutOfRange),
+        }
+    }
+
+    fn stub_check_date_time_inputs(_year: i32, _month: u8, _month_day: u8, _hour: u8, _minute: u8, _second: u8, _nanoseconds: u32) -> Result<(), crate::error::datetime::DateTimeError> {
+        Ok(())
+    }
+
+    /// daylight time at u according to the six instants: periods [S, E) if the start comes first, else [S(k), E(k+1));
+    /// outside the three modelled years the state next to the window continues
+    fn in_dst(t: &[i64; 6], start_first: bool, u: i64) -> bool {
+        if start_first {
+            (t[0] <= u && u < t[1]) || (t[2] <= u && u < t[3]) || (t[4] <= u && u < t[5])
+        } else {
+            u < t[1] || (t[0] <= u && u < t[3]) || (t[2] <= u && u < t[5]) || t[4] <= u
+        }
+    }
+
+    /// BOUNDED to what it models: a rule-only zone (no table, no leap seconds) whose DST rule has strictly interleaving
+    /// start / end instants in the three years around the searched one (arbitrary symbolic instants), arbitrary offsets
+    /// in the constructor's range.  Checks the merge logic of the DST-rule branch: valid results, gaps, order.
+    #[kani::proof]
+    #[kani::unwind(10)]
+    #[kani::stub(crate::datetime::unix_time, stub_unix_time)]
+    #[kani::stub(crate::datetime::DateTime::from_timespec_and_local, stub_from_timespec_and_local)]
+    #[kani::stub(crate::datetime::check_date_time_inputs, stub_check_date_time_inputs)]
+    #[kani::stub(crate::timezone::RuleDay::unix_time, stub_rule_day_unix_time)]
+    fn search_rule_bounded() {
+        let std_off: i32 = kani::any();
+        let dst_off: i32 = kani::any();
+        kani::assume(-90000 < std_off && std_off < 93600 && -90000 < dst_off && dst_off < 93600);
+        let std = LocalTimeType::with_ut_offset(std_off).unwrap();
+        let dst = LocalTimeType::new(dst_off, true, None).unwrap();
+        let alt = AlternateTime::new_unchecked_for_verif(std, dst, RuleDay::Julian0WithLeap(Julian0WithLeap::new(0).unwrap()), 0, RuleDay::Julian0WithLeap(Julian0WithLeap::new(1).unwrap()), 0);
+        let types = [std, dst];
+        let rule = Some(TransitionRule::Alternate(alt));
+        let tz = TimeZoneRef::new_unchecked_for_verif(&[], &types, &[], &rule);
+
+        let t: [i64; 6] = [kani::any(), kani::any(), kani::any(), kani::any(), kani::any(), kani::any()];
+        let start_first: bool = kani::any();
+        if start_first {
+            kani::assume(t[0] < t[1] && t[1] < t[2] && t[2] < t[3] && t[3] < t[4] && t[4] < t[5]);
+        } else {
+            kani::assume(t[1] < t[0] && t[0] < t[3] && t[3] < t[2] && t[2] < t[5] && t[5] < t[4]);
+        }
+        kani::assume(t[5] < i64::MAX && t[4] < i64::MAX);
+
+        let (year, month, month_day, hour, minute, second): (i32, u8, u8, u8, u8, u8) = (kani::any(), kani::any(), kani::any(), kani::any(), kani::any(), kani::any());
+        kani::assume(month <= 12 && month_day <= 31 && hour <= 23 && minute <= 59 && second <= 60);
+        YEAR.store(year as i64, Ordering::Relaxed);
+        let mut i = 0;
+        while i < 6 {
+            INSTANTS[i].store(t[i], Ordering::Relaxed);
+            i += 1;
+        }
+        let loc = stub_unix_time(year, month, month_day, hour, minute, second) as i128;
+
+        let mut rec = Recorder { n: 0, kinds: [None; CAP] };
+        let r = find_date_time(&mut rec, year, month, month_day, hour, minute, second, 0, tz);
+        if r.is_err() {
+            return;
+        }
+        assert!(rec.n <= CAP);
+        let u_std = loc - std_off as i128;
+        let u_dst = loc - dst_off as i128;
+
+        // soundness and order
+        let mut prev: i128 = i128::MIN;
+        let mut n_std = 0;
+        let mut n_dst = 0;
+        let mut k = 0;
+        while k < CAP {
+            if k < rec.n {
+                match rec.kinds[k] {
+                    Some(FoundDateTimeKind::Normal(dt)) => {
+                        let u = dt.unix_time();
+                        let d = dt.local_time_type().is_dst();
+                        assert!(u as i128 == if d { u_dst } else { u_std });
+                        assert!(in_dst(&t, start_first, u) == d);
+                        if d { n_dst += 1 } else { n_std += 1 }
+                        assert!(prev <= u as i128);
+                        prev = u as i128;
+                    }
+                    Some(FoundDateTimeKind::Skipped { before_transition, after_transition }) => {
+                        let u = before_transition.unix_time();
+                        assert!(after_transition.unix_time() == u);
+                        let a = before_transition.local_time_type().ut_offset() as i128;
+                        let b = after_transition.local_time_type().ut_offset() as i128;
+                        assert!(u as i128 + a <= loc && loc < u as i128 + b);
+                        // at one of the six instants, with the types on the two sides of it
+                        let mut hit = false;
+                        let mut j = 0;
+                        while j < 6 {
+                            if t[j] == u {
+                                let is_start = j % 2 == 0;
+                                hit = if is_start { a == std_off as i128 && b == dst_off as i128 } else { a == dst_off as i128 && b == std_off as i128 };
+                            }
+                            j += 1;
+                        }
+                        assert!(hit);
+                        assert!(prev <= u as i128);
+                        prev = u as i128;
+                    }
+                    None => assert!(false),
+                }
+            }
+            k += 1;
+        }
+        // completeness of the valid results, no duplicates
+        let std_valid = i64::MIN as i128 <= u_std && u_std <= i64::MAX as i128 && !in_dst(&t, start_first, u_std as i64);
+        let dst_valid = i64::MIN as i128 <= u_dst && u_dst <= i64::MAX as i128 && in_dst(&t, start_first, u_dst as i64);
+        assert!(n_std == if std_valid { 1 } else { 0 });
+        assert!(n_dst == if dst_valid { 1 } else { 0 });
+        // completeness of the gaps: a forward switch whose gap contains the searched time is reported once
+        let j: usize = kani::any();
+        kani::assume(j < 6);
+        let (a, b) = if j % 2 == 0 { (std_off as i128, dst_off as i128) } else { (dst_off as i128, std_off as i128) };
+        if t[j] as i128 + a <= loc && loc < t[j] as i128 + b {
+            let mut found = 0;
+            let mut k = 0;
+            while k < CAP {
+                if k < rec.n {
+                    if let Some(FoundDateTimeKind::Skipped { before_transition, .. }) = rec.kinds[k] {
+                        if before_transition.unix_time() == t[j] {
+                            found += 1;
+                        }
+                    }
+                }
+                k += 1;
+            }
+            assert!(found == 1);
+        }
+        // (rec.n == 0 is impossible here: every local time is either shown by the clock or inside a gap)
+        kani::cover!(rec.n == 1);
+        kani::cover!(rec.n == 2);
+        kani::cover!(n_std == 1 && n_dst == 1);
+    }
+}
